@@ -544,7 +544,7 @@ func c06Witness(r *core.Run, f c06File, loader string) c06Case {
 		cs.ICC = base64.StdEncoding.EncodeToString(f.Truth.ICC)
 		return cs
 	}
-	dir := filepath.Join(core.VerifDir(), "replays", r.Prop)
+	dir := filepath.Join(core.OutDir(), "replays", r.Prop)
 	_ = os.MkdirAll(dir, 0o755)
 	base := filepath.Join(dir, fmt.Sprintf("witness-%016x", fnv64(f.Bytes)))
 	_ = os.WriteFile(base+".bin", f.Bytes, 0o644)
